@@ -215,6 +215,7 @@ def p_execute(ip, args, kwargs, node):
         results.append(apply_cmd(ip, pipe.conn, c))
     ip.st.heap[(pipe.ref, "queued")] = ()
     ip.st.heap[(pipe.ref, "results")] = tuple(results)
+    ip.st.redis_last_results = tuple(results)
     _yield(ip, node, "execute", "after")
     ip.last_builtin_awaitable = True
     return VNone
@@ -347,7 +348,15 @@ def s_seq1(ip, args, kwargs, node):
     return VSeq(ref, ("str",))
 
 
-SPEC = {"seq1": _spec(s_seq1), "r_list": _spec(r_list), "r_zhas": _spec(r_zhas), "r_zscore": _spec(r_zscore), "r_hhas": _spec(r_hhas),
+def s_redis_removed(ip, args, kwargs, node):
+    """spec: how many elements the first queued command (LREM / ZREM) of the last EXEC removed"""
+    res = getattr(ip.st, "redis_last_results", None)
+    if not res or res[0] is None:
+        return VInt(0)
+    return VInt(res[0])
+
+
+SPEC = {"redis_removed": _spec(s_redis_removed), "seq1": _spec(s_seq1), "r_list": _spec(r_list), "r_zhas": _spec(r_zhas), "r_zscore": _spec(r_zscore), "r_hhas": _spec(r_hhas),
         "r_hval": _spec(r_hval)}
 
 
